@@ -17,7 +17,9 @@ PIECES = ["a", "b", "B", "x", "é", "\U0001F600", "\U00010348", "#", "|", "-", "
           " ", " ", "\t", "\x1f", "\x1f", "\xa0", "\xa0", "\x1c", "\x85", " ", "　", "\n", "\r", "``", "́"]
 WORDS = ["a", "b", "B", "é", "\U0001F600", "x y", "a\\/b", "\\/", "a\\", "\x1f", "\xa0a", "a\x1fb", "#", "c|d"]
 BLANKS = ["", "", "", " ", "  ", "\t", "\xa0", "\x1f", "　"]
-CONTENTS = ["", "", "text", "line1\nline2", "é😀", " ", "\n", "<b>", "a|b", "x\ry", "trailing ", "\x1f", "𐍈"]
+CONTENTS = ["", "", "text", "line1\nline2", "é😀", " ", "\n", "<b>", "a|b", "x\ry", "trailing ", "\x1f", "𐍈",
+            # content that itself looks like the wrapper render() adds around folded sections
+            "<details>x</details>", " <details>\n<summary>s</summary>\n\nbody\n\n</details> tail", "<details>"]
 CELLS = ["v", "", "multi\nline", "a|b", "é😀", " pad ", "\r", "x\n\ny", 0, 1, -7, 2.5, 1e-9, float("inf"), None, True, "None"]
 COLNAMES = ["a", "b", "Metric", "Value", "c d", "é", "x/y", "n\nl", "", "|"]
 METRICS = ["acc", "f1", "é", "a/b", "m m", "x"]
